@@ -141,10 +141,16 @@ func checkC07(p *Prog, r *Report) {
 			if !ok || len(ret.Results) != 1 || isNilConst(retResults(ret)[0]) {
 				continue
 			}
-			fsNonNil := HasFact(ret, true, func(v ssa.Value) bool {
-				bo, ok := v.(*ssa.BinOp)
-				return ok && bo.Op == token.NEQ && isFieldLoad(bo.X, fsF) && isNilConst(bo.Y)
-			})
+			fsNonNil := false
+			for _, f := range FactsAt(ret) {
+				bo, ok := f.Cond.(*ssa.BinOp)
+				if !ok || !isFieldLoad(bo.X, fsF) || !isNilConst(bo.Y) {
+					continue
+				}
+				if (bo.Op == token.NEQ && f.Val) || (bo.Op == token.EQL && !f.Val) {
+					fsNonNil = true
+				}
+			}
 			if fsNonNil && HasFact(ret, true, isFieldLoadPred(writable)) {
 				found = true
 			}
